@@ -143,6 +143,7 @@ def init_state(ex: Executor, contract: Contract, fn_node, case=None) -> tuple[St
         st.env[a.vararg.arg] = v
     if a.kwarg:
         v = ex.new_object(st, dict, T.DictT(str, None))
+        v.is_own_kwargs = True
         st.env[a.kwarg.arg] = v
     return st, bind
 
